@@ -118,7 +118,7 @@ def parseReq (t : Toks) : Option ReqSpec :=
 def statusName : Status → String
   | .partialResponse => "part" | .paused => "paused" | .completedFull => "full"
   | .completedPartial => "partial" | .rejected => "rejected" | .failedUnknown => "unknown"
-  | .contentNotFound => "notfound" | .cancelled => "cancelled"
+  | .contentNotFound => "notfound" | .cancelled => "cancelled" | .other c => s!"code{c}"
 
 def itemStr (s : Store) (it : Item) : String :=
   s!"{it.cid}{if it.present then "p" else "m"}{if it.block && !s.isCorrupt it.cid then "+" else ""}"
